@@ -3,6 +3,7 @@ package dawn
 import (
 	"bytes"
 	"strings"
+	"sync"
 
 	"github.com/pgavlin/dawn/label"
 )
@@ -11,6 +12,9 @@ type lineWriter struct {
 	label  *label.Label
 	events Events
 
+	// A target's standard output and standard error are the same writer, and the two sides of
+	// a shell pipeline write to them from different goroutines.
+	m    sync.Mutex
 	line strings.Builder
 }
 
@@ -28,6 +32,9 @@ func newLineWriter(label *label.Label, events Events) *lineWriter {
 }
 
 func (l *lineWriter) Write(b []byte) (int, error) {
+	l.m.Lock()
+	defer l.m.Unlock()
+
 	w := 0
 	for len(b) > 0 {
 		newline := bytes.IndexByte(b, '\n')
@@ -50,6 +57,9 @@ func (l *lineWriter) Write(b []byte) (int, error) {
 }
 
 func (l *lineWriter) Flush() error {
+	l.m.Lock()
+	defer l.m.Unlock()
+
 	if l.line.Len() != 0 {
 		l.events.Print(l.label, l.line.String())
 		l.line.Reset()
